@@ -1,0 +1,28 @@
+//go:build verif
+
+// Package verifhook provides the scheduling points used by the external verification harness.
+// With the build tag `verif` every Point calls the installed handler, which may block the calling
+// goroutine until the harness lets it continue.
+package verifhook
+
+import "sync/atomic"
+
+type Handler func(owner any, name string, args ...any)
+
+var handler atomic.Pointer[Handler]
+
+// SetHandler installs (or, with nil, removes) the handler called at every Point.
+func SetHandler(h Handler) {
+	if h == nil {
+		handler.Store(nil)
+		return
+	}
+	handler.Store(&h)
+}
+
+// Point marks a place where a background job hands over to the service loop.
+func Point(owner any, name string, args ...any) {
+	if h := handler.Load(); h != nil {
+		(*h)(owner, name, args...)
+	}
+}
